@@ -68,36 +68,21 @@ def run(ctx):
             lines.append("(%s, %d, (%d, %d, %d, %d), (%d, %d, %d, %d))" % (
                 MODE[o["mode"]], o["cs"], o["block"], o["plain"], o["sig"], o["rsig"],
                 o["maxbody"], o["body"], o["outlen"], o["sizefield"]))
-        src = """From Coq Require Import ZArith List Bool.
-From Opcua Require Import Model.Layout Gen.ArithFromGo.
-Import ListNotations. Open Scope Z_scope.
-Definition cases : list (sec_mode * Z * (Z*Z*Z*Z) * (Z*Z*Z*Z)) := [
-%s
-].
-Definition agree (c : sec_mode * Z * (Z*Z*Z*Z) * (Z*Z*Z*Z)) : bool :=
-  let '(m, cs, (block, plain, sig, rsig), (maxbody, body, outlen, sizefld)) := c in
+        good = [o for o in obs if not o.get("err")]
+        okc, idx, clog = ctx.eval_cases(
+            "From Coq Require Import ZArith List Bool.\nFrom Opcua Require Import Model.Layout Gen.ArithFromGo.\nImport ListNotations. Open Scope Z_scope.",
+            "sec_mode * Z * (Z*Z*Z*Z) * (Z*Z*Z*Z)", lines,
+            """  let '(m, cs, (block, plain, sig, rsig), (maxbody, body, outlen, sizefld)) := c in
   (go_SetMaximumBodySize cs block plain sig rsig =? maxbody) &&
   (secured_len m block plain sig rsig sym_hdr (seq_hdr + body) =? outlen) &&
-  (message_size m block plain sig rsig sym_hdr (seq_hdr + body) =? sizefld).
-Definition mism := Eval vm_compute in map fst (filter (fun ic => negb (agree (snd ic))) (combine (seq 0 (length cases)) cases)).
-Print mism.
-""" % ";\n".join(lines)
-        cf = os.path.join(ctx.work, "Cases.v")
-        with open(cf, "w") as f:
-            f.write(src)
-        okc, outc = vf.coq_eval(cf)
-        import re
-        m = re.search(r"mism\s*=\s*(\[[^\]]*\])", outc.replace("\n", " "))
-        if not okc or not m:
+  (message_size m block plain sig rsig sym_hdr (seq_hdr + body) =? sizefld)""")
+        if not okc:
             corr_ok = False
-            detail["cases"] = outc[-1500:]
-        else:
-            idx = [int(x) for x in re.findall(r"\d+", m.group(1))]
-            if idx:
-                corr_ok = False
-                good = [o for o in obs if not o.get("err")]
-                mism = [good[i] for i in idx[:10]]
-                detail["model_vs_impl_mismatches"] = mism
+            detail["cases"] = clog
+        elif idx:
+            corr_ok = False
+            mism = [good[i] for i in idx[:10]]
+            detail["model_vs_impl_mismatches"] = mism
     else:
         corr_ok = False
 
@@ -121,5 +106,4 @@ Print mism.
         seen.add(key)
         if ctx.finding(key, why, {"observation": o, "how": "chunkharness c38: SetMaximumBodySize(cs) then signAndEncrypt of a body of that size"}):
             new += 1
-    if (not proof_ok or not corr_ok) and new == 0:
-        ctx.broken_tie("C38 theorems or the model/implementation correspondence no longer check", detail)
+    ctx.conclude(proof_ok, corr_ok, new, detail)
